@@ -38,7 +38,7 @@ def cases(tier):
         out.append({"name": f"generator/k{k}", "kind": "generator", "k": k, "K": 3 if tier == "quick" else 4})
         out.append({"name": f"generate/k{k}", "kind": "single", "k": k})
     # the same system object iterated again after an earlier, abandoned or completed, use of it
-    for pre in ("partial", "complete", "single-generate"):
+    for pre in ("partial", "complete", "single-generate", "interleaved-generate"):
         out.append({"name": f"generator-after-{pre}/k2", "kind": "generator", "k": 2, "K": 2 if tier == "quick" else 3, "pre": pre})
     out.append({"name": "non-generable", "kind": "nongen"})
     out.append({"name": "real-components", "kind": "real"})
@@ -72,9 +72,10 @@ def _prepare(c, g, k):
 
     def make_stub(i, mol):
         def gen(prefix=None, rng=None):
-            if len(log["generated"]) >= 10:
-                # unwinding bound: S <= K * 10 and every molecule weighs at least 10, so no iteration needs that many molecules
-                raise core.emulated(RuntimeError("unwinding bound: more than 10 molecules generated"))
+            if len(log["generated"]) >= 7:
+                # unwinding bound: S <= K * 10 (K <= 4) and every molecule weighs at least 10, and the histories generate at most
+                # 3 molecules before: no run needs more than 7 molecules
+                raise core.emulated(RuntimeError("unwinding bound: more than 7 molecules generated"))
             m = c.fresh_real(f"m{len(log['generated'])}", 10, 1e4)
             full = c.fresh_bool(f"full{len(log['generated'])}")
             fm = FakeMolGen(i, len(log["generated"]), m, full)
@@ -86,6 +87,22 @@ def _prepare(c, g, k):
     for i, mol in enumerate(system._molecules):
         mol.generate = make_stub(i, mol)
     return system, S, fr, log
+
+
+def _bounded_generate(system, limit=8):
+    """the components' real generate, counted: no bounded iteration needs more than `limit` molecules (unwinding bound)"""
+    count = [0]
+    for mol in system._molecules:
+        orig = mol.generate
+
+        def gen(prefix=None, rng=None, _orig=orig):
+            count[0] += 1
+            if count[0] > limit:
+                raise core.emulated(RuntimeError(f"unwinding bound: more than {limit} molecules generated"))
+            return _orig(prefix=prefix, rng=rng) if rng is not None else _orig(prefix=prefix)
+
+        mol.generate = gen
+    return count
 
 
 def run_case(case, g, tier, res):
@@ -112,7 +129,9 @@ def run_case(case, g, tier, res):
             if pre:
                 # history on the same System object before the iteration that is judged
                 try:
-                    if pre == "partial":
+                    if pre == "interleaved-generate":
+                        pass
+                    elif pre == "partial":
                         it0 = iter(system.generator)
                         try:
                             next(it0)  # one molecule is taken, then the iteration is abandoned (the iterator stays alive)
@@ -132,16 +151,24 @@ def run_case(case, g, tier, res):
             info = lambda: {"S": S, "pre": pre or "", "n0": n0, "r0": r0, **{f"m{j}": fm.weight for j, fm in enumerate(log["generated"])},
                             **{f"full{j}": (fm.fully_generated if isinstance(fm.fully_generated, bool) else core.Ite(fm.fully_generated, 1, 0)) for j, fm in enumerate(log["generated"])},
                             "picks": str([r.index for r in rng.calls]), **{f"f{i}": f for i, f in enumerate(fr)}}
+            inter = []  # molecules produced by single generations interleaved with the iteration (not part of it)
             try:
                 for m in system.generator:
                     yielded.append(m)
                     c.prove(len(yielded) <= K, "unwinding bound", detail("more molecules than S / m_lo", info))
+                    if pre == "interleaved-generate" and len(yielded) == 1:
+                        # a single generation on the same System object between two steps of the running iteration
+                        try:
+                            inter.append(system.generate(rng=rng))
+                        except RuntimeError:
+                            raise core.Infeasible()
             except RuntimeError as e:
                 exc = e
             # provenance and completeness
             gen_all = log["generated"]
-            log_gen = gen_all[n0:]
-            calls = rng.calls[r0:]
+            log_gen = [m_ for m_ in gen_all[n0:] if not any(m_ is x for x in inter)]
+            skip = [k_ for k_, m_ in enumerate(gen_all[n0:]) if any(m_ is x for x in inter)]
+            calls = [cl for k_, cl in enumerate(rng.calls[r0:]) if k_ not in skip]
             for j, m in enumerate(yielded):
                 ok = isinstance(m, FakeMolGen) and j < len(log_gen) and m is log_gen[j] and j < len(calls) and m.comp == calls[j].items[calls[j].index]
                 c.prove(ok, "yielded molecule is the picked component's generate() result", detail("a yielded object is not the picked declared component's product", info))
@@ -159,7 +186,7 @@ def run_case(case, g, tier, res):
                 c.prove(len(gen) == n + 1 and Not(gen[-1].fully_generated), "exception only for an incomplete molecule", detail("generator raised without an incomplete molecule", info))
             return n, type(exc).__name__
 
-        explore_case(res, h, tier, on_path=on_path, budget_s=600)
+        explore_case(res, h, tier, on_path=on_path, budget_s=300)
     elif kind == "single":
         k = case["k"]
 
@@ -204,7 +231,7 @@ def run_case(case, g, tier, res):
                 c.prove(Not(And(Not(gflags[i]), len(log["generated"]) > 0)), "generability checked before generating", detail("a non-generable component was generated", info))
             return out is not None
 
-        explore_case(res, h, tier, on_path=on_path)
+        explore_case(res, h, tier, on_path=on_path, budget_s=300)
     elif kind == "realh":
         # a component without heavy atoms ([H][H], heavy-atom mass 0) next to methane: the accumulated mass is the HEAVY-ATOM mass
         # of the yielded molecules, recomputed here with RDKit from their SMILES (at most two hydrogen molecules per iteration)
@@ -222,6 +249,7 @@ def run_case(case, g, tier, res):
                 mol.mixture._absolute_mass = f / 100.0 * S
             rng = SymRng()
             System.generator.fget.__defaults__ = (rng,)
+            _bounded_generate(system)
             info = lambda: {"S": S, "f0": f0, "picks": str([r.index for r in rng.calls])}
             out = []
             nh = 0
@@ -241,7 +269,7 @@ def run_case(case, g, tier, res):
                 tot += hm
             return len(out)
 
-        explore_case(res, h, tier, on_path=on_path)
+        explore_case(res, h, tier, on_path=on_path, budget_s=300)
     elif kind == "real":
         # the same loop with the components' real generate (tiny molecules): ties the stub to reality
         def h(c):
@@ -255,6 +283,7 @@ def run_case(case, g, tier, res):
                 mol.mixture._absolute_mass = f / 100.0 * S
             rng = SymRng()
             System.generator.fget.__defaults__ = (rng,)
+            _bounded_generate(system)
             info = lambda: {"S": S, "f0": f0, "picks": str([r.index for r in rng.calls])}
             out = []
             for m in system.generator:
@@ -272,7 +301,7 @@ def run_case(case, g, tier, res):
                 tot += m.weight
             return len(out)
 
-        explore_case(res, h, tier, on_path=on_path)
+        explore_case(res, h, tier, on_path=on_path, budget_s=300)
     else:
         def h(c):
             which = c.fresh_int("which", 0, 2).__index__()
@@ -291,7 +320,7 @@ def run_case(case, g, tier, res):
             c.prove(raised, "non-generable system refuses", detail("a non-generable system yields a molecule", info))
             return text
 
-        explore_case(res, h, tier, on_path=on_path)
+        explore_case(res, h, tier, on_path=on_path, budget_s=300)
 
 
 def replay(rp, gb):
@@ -405,25 +434,30 @@ def replay(rp, gb):
             elif pre == "complete":
                 for _m in system.generator:
                     pass
-            elif pre:
+            elif pre and pre != "interleaved-generate":
                 system.generate(rng=rng)
         except (ReplayDone, RuntimeError) as e:
             return False, f"history could not be replayed: {type(e).__name__}"
         n0, r0 = len(gen), rng.k
         picks = picks[r0:]
         gen_all = gen
-        out, exc = [], None
+        out, exc, inter = [], None, []
         try:
             for m in system.generator:
                 out.append(m)
                 if len(out) > 50:
                     break
+                if pre == "interleaved-generate" and len(out) == 1:
+                    inter.append(system.generate(rng=rng))
         except ReplayDone:
             pass
         except RuntimeError as e:
             exc = e
         bad = []
-        gen = gen_all[n0:]
+        gen = [m_ for m_ in gen_all[n0:] if not any(m_ is x for x in inter)]
+        if inter:
+            pos = [k_ for k_, m_ in enumerate(gen_all[n0:]) if any(m_ is x for x in inter)]
+            picks = [p_ for k_, p_ in enumerate(picks) if k_ not in pos]
         for j, m in enumerate(out):
             if not m.fully_generated:
                 bad.append("incomplete molecule yielded")
